@@ -61,6 +61,10 @@ package types
 // always allocates and never writes into the shared backing array. Trusted (initialiser bodies are not verified).
 //@ axiom evm_key_prefixes: len(KeyPrefixBlockHash) == 1 && cap(KeyPrefixBlockHash) == 1 && len(KeyPrefixTransientTxReceipt) == 1 && cap(KeyPrefixTransientTxReceipt) == 1 && len(KeyPrefixTransientTxGas) == 1 && cap(KeyPrefixTransientTxGas) == 1 && len(KeyPrefixTransientTxLogCount) == 1 && cap(KeyPrefixTransientTxLogCount) == 1
 
+// (helper tr) the transient-store keys hold the values their initialisers give them (T4, like evm_key_prefixes: package-level
+// variables are not modified after init; the initialisers are the one-byte literals above in key.go).
+//@ axiom evm_transient_key_values: len(KeyTransientTxCount) == 1 && KeyTransientTxCount[0] == 5 && len(KeyPrefixTransientTxGas) == 1 && KeyPrefixTransientTxGas[0] == 6 && len(KeyPrefixTransientTxLogCount) == 1 && KeyPrefixTransientTxLogCount[0] == 7 && len(KeyPrefixTransientTxReceipt) == 1 && KeyPrefixTransientTxReceipt[0] == 8 && len(KeyTransientFlagIncreasedSenderNonce) == 1 && KeyTransientFlagIncreasedSenderNonce[0] == 9 && len(KeyTransientFlagNoBaseFee) == 1 && KeyTransientFlagNoBaseFee[0] == 10 && len(KeyTransientSenderPaidFee) == 1 && KeyTransientSenderPaidFee[0] == 11
+
 //@ ghost func trReceiptKeyB(i int) bytes
 //@ func TxReceiptTransientKey(txIdx uint64) []byte
 //@   assumed
